@@ -4,7 +4,7 @@ seeded change under /verif/seeded/<ID>-<X>/ and records the outcome in meta.json
 Usage: seedrecheck.py [ID-X ...]   (default: all)"""
 import sys, os, json, subprocess, time, glob
 ROOT = os.path.dirname(os.path.dirname(os.path.abspath(__file__)))
-WT = "/tmp/seedwt"
+WT = os.environ.get("SEED_WT", "/tmp/seedwt")
 
 def sh(cmd, cwd=None, env=None, timeout=3600):
     p = subprocess.run(cmd, shell=True, cwd=cwd, capture_output=True, text=True, timeout=timeout, env=env)
@@ -27,7 +27,7 @@ def main():
         env = dict(os.environ, VERIF_REPO=WT)
         res = {}
         if pid in claimed:
-            for tier in ("quick", "thorough"):
+            for tier in (("quick", "thorough") if os.environ.get("SEED_THOROUGH") else ("quick",)):
                 t0 = time.time()
                 rc, o = sh(f"./check {pid} --tier {tier}", cwd=ROOT, env=env)
                 lines = [l[:300] for l in o.splitlines() if l.startswith(("VIOLATION", "UNDECIDED", "TOOL-ERROR", "note (undecided)"))][:3]
